@@ -285,9 +285,9 @@ class Str(object):
             if literal == '':
                 literal += self.current_quote
 
-            if c == '\n':
+            if c == '\n' and self.pep701:
                 literal += '\\n'
-            elif c == '\r':
+            elif c == '\r' and self.pep701:
                 literal += '\\r'
             elif c == '\\':
                 literal += '\\\\'
